@@ -207,12 +207,10 @@ PROPS = {
         "runs": [minter(150, 6000)],
         "preds": ["C02."],
         "rule": MINTER_RULE,
-        "partial": ["the closed theorem 'sum over any partition = floor(cumulative schedule at T)' across several periods is assembled from the proved "
-                    "per-block theorems (growth of counters, counter depends on block time only, hand-over carries the fraction, carries telescope, "
-                    "linear/exponential monotonicity) but the final induction over the period list is not yet a single Coq theorem; the harness "
-                    "checks that statement on the implementation against an independent exact-rational schedule (C02.cumulative_equals_schedule) "
-                    "and across partitions (C02.partition_independent) on every run"],
-        "level_text": "Coq theorems over the executable minter model for every parameter set, state and block time: a block's amount is never negative "
+        "level_text": "Coq theorems over the executable minter model. Whole histories (C02_cumulative_mint_is_floor_of_schedule, MinterWalk.partition_independence): for every "
+                      "validated configuration (linear periods of at least a millisecond), every genesis state with zero counters and every strictly increasing "
+                      "sequence of block times, no BeginBlock fails and the total minted equals floor(exact cumulative schedule at the last block time) - hence "
+                      "equal for any two partitions of the same span (C02_partition_independent). Per block, for every parameter set, state and time: a block's amount is never negative "
                       "and equals the growth of (finished periods' totals + current counter); inside a period the counter after a block is "
                       "floor(schedule(now)+carry) whatever happened before (partition independence); hand-over writes the full counter to history and "
                       "passes exactly the fractional remainder; carries telescope to floor of the exact sum; linear periods hit exactly their amount "
